@@ -194,6 +194,17 @@ CLAIMS = {
             "DESIGN.md section 9 C09",
             TB + "; DH symmetry taken from C17; the independent implementation is spec/ecmath.py + spec/aes197.py, not OpenSSL",
             "deductive: AST->VC over ropes with callee contracts and ghost call logs, ground facts, z3; bounded independent ECIES"),
+    "C19": ("proof",
+            "inverse-pair contracts on the real DER / number primitives with symbolic values: read_length(encode_length(l)) "
+            "for all l < 2^32 incl. minimality and truncation refusal, remove_integer(encode_integer(r)) for all r < 2^528, "
+            "string_to_number(number_to_string(v, order)) and the raw signature codec for the orders of the shipped curves "
+            "(3 curves quick, 17 thorough).  Key / point encodings (DER, PEM, SEC1, PKCS#8, named and explicit parameters, "
+            "raw / uncompressed / compressed / hybrid) on the curves, every truncation, extension and byte mutation, and "
+            "BEC2's fixed 27-byte P-256 header: bounded monitor on the real library.  Byte compatibility with the OpenSSL "
+            "binary is not a contract",
+            "DESIGN.md section 9 C19",
+            TB + "; '%x' formatting / hexlify / unhexlify / int(.,16) by library model; key-level codecs bounded only",
+            "deductive: AST->VC over ropes with a hexadecimal-text model (case split on magnitudes), z3; bounded monitor"),
 }
 
 NA_DEFAULT = "check not built yet (construction in progress, see DESIGN.md section 14)"
